@@ -12,7 +12,7 @@
    order (and content-length gives the right count).  A crash is `firstn k` of the
    effects; an I/O error is an exception (the partial file is still closed). *)
 From Coq Require Import ZArith List Bool.
-From FV Require Import Common.PySem Common.PyStr Common.AtomFS Common.Chunk gen.Gen_downloads
+From FV Require Import Common.PySem Common.PyStr Common.AtomFS Common.Chunk gen.Gen_downloads gen.Gen_cifar100_cache
   Model.C19_Model Proofs.C19_Proofs.
 Import ListNotations.
 Local Open Scope Z_scope.
@@ -83,6 +83,32 @@ Theorem C19_decompress_never_torn : forall dpath (d : dir) (z : zsource Blk) m,
   no_torn_final streqb (is_final dpath) (applys19 d (firstn m (fst (decompress d dpath z)))).
 Proof. exact decompress_never_tears. Qed.
 
+(* cifar100.load_split's converted file federated_cifar100_<split>.sqlite: at every crash point,
+   whatever the TFF iterator yields or raises, the final split file is absent or complete --
+   provided only the complete content passes validate_file (honest_valid) *)
+Theorem C19_split_final_absent_or_complete : forall spath P (d : dir) (x : csource Blk),
+  (lookup streqb d spath = None \/ lookup streqb d spath = Some (Whole P)) -> honest_valid P x ->
+  forall k, let d' := applys19 d (firstn k (fst (convert d spath x))) in
+    lookup streqb d' spath = None \/ lookup streqb d' spath = Some (Whole P).
+Proof. exact convert_prefix_good. Qed.
+
+Theorem C19_split_retry_repairs : forall spath P l (d : dir) x,
+  (lookup streqb d spath = None \/ lookup streqb d spath = Some (Whole P)) ->
+  Forall (fun ck => exists s, fst ck = CConvert spath s /\ honest_valid P s) l ->
+  x_clients x = map Some P -> x_valid x P = true ->
+  exists evs d', one_call (after d l) (CConvert spath x) None = (evs, d', Returned) /\
+    lookup streqb d' spath = Some (Whole P).
+Proof. exact retry_convert. Qed.
+
+Theorem C19_split_cache_reused : forall spath (d : dir) c (x : csource Blk),
+  lookup streqb d spath = Some c -> convert d spath x = ([DEx spath], true).
+Proof. exact convert_reuse. Qed.
+
+Theorem C19_split_never_torn : forall spath (d : dir) (x : csource Blk) m,
+  no_torn_final streqb (is_final spath) d ->
+  no_torn_final streqb (is_final spath) (applys19 d (firstn m (fst (convert d spath x)))).
+Proof. exact convert_never_tears. Qed.
+
 End C19.
 
 (* the translated block count: (length + block_size - 1) // block_size reads of block_size
@@ -115,4 +141,8 @@ Print Assumptions C19_decompress_cache_reused.
 Print Assumptions C19_after_is_calls.
 Print Assumptions C19_download_never_torn.
 Print Assumptions C19_decompress_never_torn.
+Print Assumptions C19_split_final_absent_or_complete.
+Print Assumptions C19_split_retry_repairs.
+Print Assumptions C19_split_cache_reused.
+Print Assumptions C19_split_never_torn.
 Print Assumptions C19_block_count.
